@@ -365,7 +365,7 @@ def _n_sessions(ch, fixed):
     if fixed != "any":
         return fixed
     # a TPM takes at most three sessions, the decoder any number: four and five are drawn rarely
-    return ch.choice([None, None, None, 1, 1, 1, 2, 2, 3, 3, 0, 0, 4, 5])
+    return ch.choice([None, None, None, 1, 1, 1, 2, 2, 3, 3, 0, 0, 4, 5, 9])
 
 
 @st.composite
